@@ -328,6 +328,29 @@ func (c *Ctx) checkMutationProtocol() {
 		for _, ci := range core.CallsTo(fn, applyMut) {
 			args := core.CallArgs(ci.Common())
 			recvF, _ := core.FieldOfAddr(args[0])
+			if al, isLocal := args[0].(*ssa.Alloc); isLocal && recvF == nil && al.Referrers() != nil {
+				// a local working copy: initialised from the record's field and stored back into it
+				var from, back *types.Var
+				for _, ref := range *al.Referrers() {
+					if st, ok := ref.(*ssa.Store); ok && st.Addr == ssa.Value(al) {
+						if f, _ := core.LoadedField(core.Strip(st.Val)); f != nil {
+							from = f
+						}
+					}
+					if ld, ok := ref.(*ssa.UnOp); ok && ld.Referrers() != nil {
+						for _, r2 := range *ld.Referrers() {
+							if st, ok := r2.(*ssa.Store); ok && st.Val == ssa.Value(ld) {
+								if f, _ := core.FieldOfAddr(st.Addr); f != nil {
+									back = f
+								}
+							}
+						}
+					}
+				}
+				if from != nil && from == back {
+					recvF = from
+				}
+			}
 			var argF string
 			if core.IsFieldLoad(acsWant)(args[1]) {
 				argF = "Want"
